@@ -300,6 +300,56 @@ theorem deductFee_sound {s s' : State} {payer fee} (hs : Sound s.bank) (h : dedu
   refine ⟨s1, d, n.toNat, tax.toNat, ?_, by omega, e1⟩
   congr 2; omega
 
+/-- everything an accepted fee deduction did, in one statement: the fee coin, the tax, the ledger
+effect, and — when the bank was sound — soundness and the exact burn -/
+theorem deductFee_full {s s' : State} {payer fee} (h : deductFee s payer fee = .ok s') :
+    ∃ d, ∃ n tax : Nat, ∃ b', fee = .ok (d, (n : Int)) ∧ tax ≤ n ∧ FeeEff s.bank b' payer d n tax ∧
+      s' = { s with bank := b' } ∧
+      (Sound s.bank → Sound b' ∧ b'.supplyOf d + (n - tax) = s.bank.supplyOf d) := by
+  unfold deductFee at h
+  split at h; · cases h
+  rename_i d n
+  split at h; · cases h
+  rename_i hn
+  unfold feeHandler at h
+  split at h; · cases h
+  rename_i tax htax
+  split at h; · cases h
+  rename_i hr
+  split at h; · cases h
+  rename_i b' hm
+  cases h
+  have hle : tax.toNat ≤ n.toNat := by omega
+  refine ⟨d, n.toNat, tax.toNat, b', ?_, hle, feeMoves_ok hle hm, rfl, fun hs => sound_feeMoves hs hm⟩
+  congr 2; omega
+
+/-- the fee of an issue is charged in the min unit of the fee token -/
+theorem toMinCoin_unit {s : State} {denom : String} {amt : Dec} {d : String} {n : Int}
+    (h : toMinCoin s denom amt = .ok (d, n)) : ∃ t, getToken s denom = some t ∧ d = t.minUnit := by
+  unfold toMinCoin at h
+  split at h; · cases h
+  rename_i t ht
+  split at h; · cases h
+  split at h; · cases h
+  split at h; · cases h
+  cases h
+  exact ⟨t, ht, rfl⟩
+
+theorem issueFee_unit {s : State} {len : Nat} {d : String} {n : Int} (h : issueFee s len = .ok (d, n)) :
+    ∃ t, getToken s s.params.feeDenom = some t ∧ d = t.minUnit := by
+  unfold issueFee at h
+  split at h; · cases h
+  exact toMinCoin_unit h
+
+theorem mintFee_unit {s : State} {len : Nat} {d : String} {n : Int} (h : mintFee s len = .ok (d, n)) :
+    ∃ t, getToken s s.params.feeDenom = some t ∧ d = t.minUnit := by
+  unfold mintFee at h
+  split at h; · cases h
+  split at h; · cases h
+  split at h; · cases h
+  split at h; · cases h
+  exact toMinCoin_unit h
+
 /-! ### inversion: what an accepted handler did -/
 
 theorem issue_ok {s s' : State} {owner symbol name minUnit : String} {scale init max : Nat} {mintable : Bool}
